@@ -346,3 +346,7 @@ def run(repo: Repo, rep: Report, tier: str) -> None:
     from .c10 import lookup_order_rule
 
     lookup_order_rule(repo, rep, "C12.R7")
+    from .memo import memo_rule
+
+    memo_rule(repo, rep, "C12.R8")
+
